@@ -529,6 +529,86 @@ def gen_raster_net(rng, max_cells=56, loopfree=True):
     return gen_forest(rng, n, fanin_bias=rng.choice([0.0, 0.0, 0.5])), shape, "forest"
 
 
+def snake_path(nrow, ncol, by="row", corner="tl"):
+    """all cells of an nrow x ncol raster in boustrophedon ('snake') order, as a numpy int64 array of linear indices:
+    consecutive cells are 4-neighbours. by='row': along the rows, by='col': along the columns; corner = the raster
+    corner the path starts in (tl, tr, bl, br)."""
+    idx = np.arange(nrow * ncol, dtype=np.int64).reshape(nrow, ncol)
+    if corner[0] == "b":
+        idx = idx[::-1]
+    if corner[1] == "r":
+        idx = idx[:, ::-1]
+    if by == "col":
+        idx = idx.T
+    idx = idx.copy()
+    idx[1::2] = idx[1::2, ::-1]
+    return idx.ravel()
+
+
+def gen_channel_net(rng, max_cells=56, min_cells=5):
+    """(ds, shape, family): a raster network that consists mostly of ONE long flow path (a meandering river / a canal):
+    a 1 x N or N x 1 channel, or a snake through an r x c raster (along rows or columns, from any corner); the pit is
+    the first cell of the path. The main path covers all cells or more than half of them; the remaining cells are
+    nodata or short D8 side branches draining to a neighbouring cell earlier on the snake; occasionally the river is cut
+    in two by one nodata cell. All links are true D8 links."""
+    u = rng.random()
+    if u < 0.3:
+        N = rng.randint(min_cells, max_cells)
+        shape = (1, N) if rng.random() < 0.6 else (N, 1)
+        fam = "channel"
+    else:
+        while True:
+            r = rng.randint(2, 9)
+            c = rng.randint(2, max(2, max_cells // r))
+            if min_cells <= r * c <= max_cells:
+                break
+        shape = (r, c) if rng.random() < 0.5 else (c, r)
+        fam = "snake"
+    nrow, ncol = shape
+    n = nrow * ncol
+    path = [int(x) for x in snake_path(nrow, ncol, rng.choice(["row", "col"]), rng.choice(["tl", "tr", "bl", "br"]))]
+    pos = {cell: k for k, cell in enumerate(path)}
+    L = n if rng.random() < 0.5 else rng.randint(n // 2 + 1, n)
+    ds = [n] * n
+    ds[path[0]] = path[0]
+    for k in range(1, L):
+        ds[path[k]] = path[k - 1]
+    rest = rng.choice(["nodata", "branch", "mixed"])
+    for k in range(L, n):
+        i = path[k]
+        if rest == "nodata" or (rest == "mixed" and rng.random() < 0.5):
+            continue
+        r0, c0 = divmod(i, ncol)
+        cands = [r1 * ncol + c1 for r1 in (r0 - 1, r0, r0 + 1) for c1 in (c0 - 1, c0, c0 + 1)
+                 if 0 <= r1 < nrow and 0 <= c1 < ncol and pos[r1 * ncol + c1] < k and ds[r1 * ncol + c1] != n]
+        ds[i] = rng.choice(cands) if cands and rng.random() < 0.9 else i
+    if L >= 6 and rng.random() < 0.15:
+        q = path[rng.randint(L // 2, L - 2)]      # the river is cut: the cell upstream of the gap becomes a pit
+        ds[q] = n
+        for i in range(n):
+            if ds[i] == q:
+                ds[i] = i
+        fam += "-cut"
+    return ds, shape, fam
+
+
+def ds_to_nextxy(ds, shape, pit_code=-9):
+    """(nextx, nexty) int32 rasters (one-based column / row of the downstream cell, pit_code at pits, -9999 outside the
+    network) of a raster network; any link, not only 8-neighbour links"""
+    nrow, ncol = shape
+    n = nrow * ncol
+    nx = np.full(n, -9999, dtype=np.int32)
+    ny = np.full(n, -9999, dtype=np.int32)
+    for i, d in enumerate(ds):
+        if d == n:
+            continue
+        if d == i:
+            nx[i] = ny[i] = pit_code
+        else:
+            nx[i], ny[i] = d % ncol + 1, d // ncol + 1
+    return nx.reshape(shape), ny.reshape(shape)
+
+
 def topo_of(ds):
     """harness' own downstream-first order of the cells that reach a pit"""
     n = len(ds)
